@@ -33,6 +33,7 @@ def units(tier):
     us.append(ground_unit("igs.coefficient_counts", coefficient_count_lemma))
     us.append(ground_unit("tables.naming", tablecheck.naming_lemmas))
     us.append(ground_unit("tables.WF", tablecheck.wf_lemmas))
+    us.append(ground_unit("tables.field_entries", tablecheck.field_entry_lemmas))
     return us
 
 
